@@ -41,7 +41,7 @@ class Spike(Case):
             return [(ValueError, "unknown-method", True)]
         return []
 
-    def regions(self, e):
+    def regions(self, e, res=None, k=None):
         r = {"empty-series": alg.eq(e.n, 0)}
         z = []
         if self.params["sus"]:
